@@ -1,0 +1,43 @@
+//go:build verif
+
+package download
+
+import (
+	"github.com/33cn/chain33/system/p2p/dht/protocol"
+	"github.com/33cn/chain33/types"
+)
+
+// Verification hooks (build tag verif only): nothing here is compiled into a normal build.
+
+// VerifNewProtocol does what InitProtocol does and returns the instance.
+func VerifNewProtocol(env *protocol.P2PEnv) *Protocol {
+	p := &Protocol{
+		P2PEnv:  env,
+		counter: NewCounter(),
+	}
+	protocol.RegisterStreamHandler(p.Host, downloadBlockOld, p.handleStreamDownloadBlockOld)
+	protocol.RegisterStreamHandler(p.Host, downloadBlock, p.handleStreamDownloadBlock)
+	protocol.RegisterEventHandler(types.EventFetchBlocks, p.handleEventDownloadBlock)
+	return p
+}
+
+// VerifPicked, when set, observes every peer selection of downloadBlock: the height, the chosen peer ("" when
+// none is available), its index, whether this is the concurrent first pass (false: checkTask's re-download) and
+// the peers in the goroutine's view of the task list. Called with the task-list lock held (first pass).
+var VerifPicked func(height int64, pid string, index int, firstPass bool, view []string)
+
+func verifPicked(height int64, task *taskInfo, ts tasks, firstPass bool) {
+	f := VerifPicked
+	if f == nil {
+		return
+	}
+	view := make([]string, len(ts))
+	for i, t := range ts {
+		view[i] = t.Pid.String()
+	}
+	if task == nil {
+		f(height, "", -1, firstPass, view)
+		return
+	}
+	f(height, task.Pid.String(), task.Index, firstPass, view)
+}
